@@ -143,4 +143,47 @@ Section Machine.
   (* a freshly constructed chemical *)
   Definition fresh (h : heap) (k : cnkind) (p : phase) (sc : Sc) (hv : Hc) (addr : nat) : chem :=
     rewire h (mkC k p sc hv addr addr (mkIn k p sc (hget h addr) hv) None 0).
+
+  (* ---- the constructor Chemical(ID, ..., Hvap=, default=, method=) (no phase=): _chemical.py:510.
+     cls.new / cls.blank(..., free_energies=False) leaves the object WITHOUT H / S functors; then the statements of
+     Gen_Rewire.ctor_tail run in source order.  What each changes (by hand, tie = `ctor` cases):
+       KAddHvap       `if Hvap: self._Hvap.add_method(Hvap)`: the Hvap handle gets (and selects) the user model
+       KAddCnIfPhase  under `if phase:` only; these cases pass no phase: nothing (a Cn= without phase raises before)
+       KDefault       `if default: self.default()`: fills missing data, and (no functors yet) ends with reset_free_energies
+       KSetMethod     `if method: self.set_method(method)`: handles that have the method switch to it (content transformers)
+       KReset         self.reset_free_energies()
+     [a_built] = the object has functors at all. *)
+  Record ctor_args : Type := mkCtor {
+    a_hvap : option Hc;                          (* Hvap= : content of the Hvap handle once the user model is selected *)
+    a_default : option (Sc -> Sc);               (* default=True : what default() does to the scalar data *)
+    a_method : option ((Hc -> Hc) * (Cc -> Cc))  (* method= : what set_method does to the Hvap handle / the Cn handle set *) }.
+
+  Definition cstate : Type := (heap * chem * bool)%type.
+
+  Definition ctor_step_run (a : ctor_args) (s : cstate) (k : ctor_step) : cstate :=
+    let '(h, c, built) := s in
+    match k with
+    | KAddHvap => match a_hvap a with Some x => (h, set_hv c x, built) | None => s end
+    | KAddCnIfPhase => s
+    | KDefault => match a_default a with
+                  | Some f => let c' := set_sc c (f (c_sc c)) in if built then (h, c', built) else (h, rewire h c', true)
+                  | None => s
+                  end
+    | KSetMethod => match a_method a with
+                    | Some (fh, fc) => (upd h (c_cn c) (fc (hget h (c_cn c))), set_hv c (fh (c_hv c)), built)
+                    | None => s
+                    end
+    | KReset => (h, rewire_if reset_rebuilds_from_own h c, true)
+    end.
+
+  Definition ctor_steps (a : ctor_args) (s : cstate) (l : list ctor_step) : cstate := fold_left (ctor_step_run a) l s.
+
+  (* the object as cls.new / cls.blank(free_energies=False) leaves it: data and handles, no functors *)
+  Definition ctor_blank (h : heap) (k : cnkind) (p : phase) (sc : Sc) (hv : Hc) (addr : nat) : cstate :=
+    (h, mkC k p sc hv addr addr (mkIn k p sc (hget h addr) hv) None 0, false).
+
+  (* Chemical(...): the new heap, and the chemical if it has functors (None: H and S are None) *)
+  Definition construct (a : ctor_args) (h : heap) (k : cnkind) (p : phase) (sc : Sc) (hv : Hc) (addr : nat) : heap * option chem :=
+    let '(h', c, built) := ctor_steps a (ctor_blank h k p sc hv addr) ctor_tail in
+    (h', if built then Some c else None).
 End Machine.
